@@ -192,11 +192,11 @@ Fixpoint run (fuel : nat) (r : routine) (x : pv) {struct fuel} : res pv :=
       | RNoOp => Ok x
       | RSeq k r' =>
           bind (load rt x) (fun d => bind (itervalues rt d) (fun vs =>
-          bind (mapM (run n r') vs) (fun rs => construct_seq rt k rs)))
+          bind (mapM (elem_conv rt k (run n r')) vs) (fun rs => construct_seq rt k rs)))
       | RMap k rk rv =>
           bind (load rt x) (fun d => bind (iteritems rt E d) (fun kvs =>
-          bind (mapM (fun kv => bind (run n rk (fst kv)) (fun k' =>
-                                bind (run n rv (snd kv)) (fun v' => Ok (k', v')))) kvs)
+          bind (mapM (hashing rt fst (fun kv => bind (run n rk (fst kv)) (fun k' =>
+                                bind (run n rv (snd kv)) (fun v' => Ok (k', v'))))) kvs)
                (fun rs => construct_map rt k rs)))
       | RTuple rs =>
           bind (load rt x) (fun d => bind (itervalues rt d) (fun vs =>
@@ -221,8 +221,8 @@ Fixpoint run (fuel : nat) (r : routine) (x : pv) {struct fuel} : res pv :=
       | RSeq k r' => bind (itervalues rt x) (fun vs => bind (mapM (run n r') vs) (fun rs => Ok (PSeq KList rs)))
       | RMap k rk rv =>
           bind (iteritems rt E x) (fun kvs =>
-          bind (mapM (fun kv => bind (run n rk (fst kv)) (fun k' =>
-                                bind (run n rv (snd kv)) (fun v' => Ok (k', v')))) kvs)
+          bind (mapM (hashing rt fst (fun kv => bind (run n rk (fst kv)) (fun k' =>
+                                bind (run n rv (snd kv)) (fun v' => Ok (k', v'))))) kvs)
                (fun rs => construct_map rt KDict rs))
       | RTuple rs =>
           bind (itervalues rt x) (fun vs =>
